@@ -25,6 +25,22 @@ FORBIDDEN = re.compile(
     r"|native_compute")
 
 
+class coq_lock:
+    """Serialises Coq builds in /verif/coq across concurrently running checks."""
+
+    def __enter__(self):
+        import fcntl
+        os.makedirs(CACHE, exist_ok=True)
+        self.f = open(os.path.join(CACHE, "coq.lock"), "w")
+        fcntl.flock(self.f, fcntl.LOCK_EX)
+        return self
+
+    def __exit__(self, *a):
+        import fcntl
+        fcntl.flock(self.f, fcntl.LOCK_UN)
+        self.f.close()
+
+
 def v_files(include_gen=True):
     out = []
     for dp, dn, fn in os.walk(COQ):
@@ -104,9 +120,10 @@ ERR_RE = re.compile(r'File "([^"]+)", line (\d+), characters [\d-]+:\n(Error:.*?
 def make(targets, timeout=1800):
     """Full .vo build of the targets (and dependencies).  Returns (ok, log, errors) where
     errors = list of (file, line, message)."""
-    write_project()
-    cmd = ["make", "-k", "-j%d" % NCPU] + list(targets)
-    rc, so, se = sh(cmd, cwd=COQ, timeout=timeout, env={"TIMED": ""})
+    with coq_lock():
+        write_project()
+        cmd = ["make", "-k", "-j%d" % NCPU] + list(targets)
+        rc, so, se = sh(cmd, cwd=COQ, timeout=timeout, env={"TIMED": ""})
     log = so + "\n" + se
     errs = [(m.group(1), int(m.group(2)), m.group(3).strip()[:600]) for m in ERR_RE.finditer(log)]
     if rc == 124:
@@ -128,7 +145,8 @@ def print_assumptions(vfile, timeout=600):
     """Re-run coqc on a Properties file (its dependencies must be built) and parse the
     Print Assumptions blocks.  Returns (ok, {theorem: [axiom names]}, raw output)."""
     thms, pa = theorems_in(vfile)
-    rc, so, se = sh(["coqc", "-Q", ".", LOGICAL, "-w", "-notation-overridden", vfile], cwd=COQ, timeout=timeout)
+    with coq_lock():
+        rc, so, se = sh(["coqc", "-Q", ".", LOGICAL, "-w", "-notation-overridden", vfile], cwd=COQ, timeout=timeout)
     out = so
     blocks = []
     cur = None
@@ -158,7 +176,6 @@ def print_assumptions(vfile, timeout=600):
 def extract(extract_v, driver_ml, exe_name, timeout=900):
     """coqc coq/Extract/<extract_v> (which must `Extraction "<name>.ml" ...`), then build the
     OCaml driver /verif/drivers/<driver_ml> against it.  Returns exe path."""
-    write_project()
     src = os.path.join(COQ, "Extract", extract_v)
     drv = os.path.join(VERIF, "drivers", driver_ml)
     # dependencies of the extraction file must be compiled already (make by the caller)
@@ -181,7 +198,8 @@ def extract(extract_v, driver_ml, exe_name, timeout=900):
     shutil.rmtree(d, ignore_errors=True)
     os.makedirs(d)
     shutil.copy(src, os.path.join(d, extract_v))
-    rc, so, se = sh(["coqc", "-Q", COQ, LOGICAL, "-w", "-extraction", extract_v], cwd=d, timeout=timeout)
+    with coq_lock():
+        rc, so, se = sh(["coqc", "-Q", COQ, LOGICAL, "-w", "-extraction", extract_v], cwd=d, timeout=timeout)
     if rc != 0:
         shutil.rmtree(d, ignore_errors=True)
         raise RuntimeError("extraction %s failed:\n%s\n%s" % (extract_v, so[-3000:], se[-3000:]))
